@@ -51,6 +51,7 @@ def tree_knobs(rng, k):
         cleaned_away_prob=float(rng.choice([0.0, 0.2, 0.5])),
         merge_prob=float(rng.choice([0.0, 0.4, 1.0])),
         trailing=bool(k % 2),
+        clean_layout=[1, 2, 3, 4][(k // 2) % 4],
     )
 
 
